@@ -1,7 +1,17 @@
 package core
 
-// SelfTest runs the engine-level positive/negative controls (synthetic snippets
-// embedded in the binary) so that a broken primitive cannot produce a silent pass.
+import (
+	"go/ast"
+	"go/parser"
+	"go/token"
+	"go/types"
+
+	"golang.org/x/tools/go/packages"
+)
+
+// SelfTest runs the engine-level positive/negative controls (synthetic snippets embedded
+// in the binary, never /repo code) so that a broken primitive cannot produce a silent
+// pass: every control contains a construct the primitive must flag and one it must accept.
 func SelfTest(r *Report) {
 	for _, t := range selfTests {
 		if msg := t.fn(); msg != "" {
@@ -17,4 +27,194 @@ type selfTestT struct {
 	fn   func() string
 }
 
-var selfTests []selfTestT
+// snippet type-checks src (package p) and returns its functions by name.
+func snippet(src string) (map[string]*Func, error) {
+	fset := token.NewFileSet()
+	file, err := parser.ParseFile(fset, "snippet.go", src, 0)
+	if err != nil {
+		return nil, err
+	}
+	info := &types.Info{Types: map[ast.Expr]types.TypeAndValue{}, Defs: map[*ast.Ident]types.Object{}, Uses: map[*ast.Ident]types.Object{},
+		Selections: map[*ast.SelectorExpr]*types.Selection{}, Implicits: map[ast.Node]types.Object{}, Scopes: map[ast.Node]*types.Scope{}, Instances: map[*ast.Ident]types.Instance{}}
+	conf := types.Config{}
+	pkg, err := conf.Check("p", fset, []*ast.File{file}, info)
+	if err != nil {
+		return nil, err
+	}
+	pp := &packages.Package{PkgPath: "p", Types: pkg, TypesInfo: info, Syntax: []*ast.File{file}, Fset: fset}
+	out := map[string]*Func{}
+	for _, d := range file.Decls {
+		if fd, ok := d.(*ast.FuncDecl); ok && fd.Body != nil {
+			obj, _ := info.Defs[fd.Name].(*types.Func)
+			out[fd.Name.Name] = &Func{Pkg: pp, Decl: fd, Obj: obj, Name: fd.Name.Name, Body: fd.Body, Type: fd.Type}
+		}
+	}
+	return out, nil
+}
+
+const controlSrc = `package p
+
+// Mutex stands in for sync.Mutex so that the control needs no importer.
+type Mutex struct{ state int }
+
+func (m *Mutex) Lock()   { m.state = 1 }
+func (m *Mutex) Unlock() { m.state = 0 }
+
+type T struct {
+	mu Mutex
+	n  int
+	ch chan int
+}
+
+func step() error { return nil }
+func sink()       {}
+
+func good() error {
+	if err := step(); err != nil {
+		return err
+	}
+	sink()
+	return nil
+}
+
+func bad() error {
+	_ = step()
+	sink()
+	return nil
+}
+
+func locked(t *T) {
+	t.mu.Lock()
+	t.n++
+	t.mu.Unlock()
+	t.n--
+}
+
+func sends(t *T, c bool) {
+	t.ch <- 1
+	if c {
+		t.ch <- 2
+	}
+}
+
+func remapOK(r rune) rune {
+	switch {
+	case r <= 0x20:
+		r = r + 0x100
+	case r >= 0x7f && r <= 0xa0:
+		r = r + 0xa2
+	}
+	return r
+}
+
+func remapBad(r rune) rune {
+	switch {
+	case r <= 0x20:
+		r = r + 0x100
+	case r >= 0x7e && r <= 0xa0:
+		r = r + 0xa2
+	}
+	return r
+}
+`
+
+var selfTests = []selfTestT{
+	{"E1 error-edge dominance (OnSuccessOf)", func() string {
+		fs, err := snippet(controlSrc)
+		if err != nil {
+			return err.Error()
+		}
+		for name, want := range map[string]bool{"good": true, "bad": false} {
+			g := NewGraph(fs[name])
+			steps, sinks := g.FindCalls("p.step"), g.FindCalls("p.sink")
+			if len(steps) != 1 || len(sinks) != 1 {
+				return "calls not resolved in " + name
+			}
+			if ok, _ := g.OnSuccessOf(steps[0], sinks[0].Loc); ok != want {
+				return "OnSuccessOf wrong for " + name
+			}
+			reach, checked := g.FailureReaches(steps[0], sinks[0].Loc)
+			if want && (reach || !checked) {
+				return "FailureReaches wrong for good"
+			}
+			if !want && checked {
+				return "FailureReaches: dropped error reported as checked"
+			}
+		}
+		return ""
+	}},
+	{"E2 must-lockset", func() string {
+		fs, err := snippet(controlSrc)
+		if err != nil {
+			return err.Error()
+		}
+		f := fs["locked"]
+		g := NewGraph(f)
+		lf := ComputeLocks(g, nil)
+		var held []bool
+		ast.Inspect(f.Body, func(n ast.Node) bool {
+			if s, ok := n.(*ast.IncDecStmt); ok {
+				held = append(held, len(lf.HeldAt(s)) == 1)
+			}
+			return true
+		})
+		if len(held) != 2 || !held[0] || held[1] {
+			return "lockset must be {t.mu} at t.n++ and {} at t.n--"
+		}
+		return ""
+	}},
+	{"E1 path counting", func() string {
+		fs, err := snippet(controlSrc)
+		if err != nil {
+			return err.Error()
+		}
+		g := NewGraph(fs["sends"])
+		_, ex := g.CountPaths(g.Entry(), func(n ast.Node) int {
+			if _, ok := n.(*ast.SendStmt); ok {
+				return 1
+			}
+			return 0
+		}, nil)
+		var m uint8
+		for _, v := range ex {
+			m |= v
+		}
+		if m != 2|4 {
+			return "expected counts {1,2+} at the exit"
+		}
+		return ""
+	}},
+	{"E9 piecewise maps", func() string {
+		fs, err := snippet(controlSrc)
+		if err != nil {
+			return err.Error()
+		}
+		for name, wantInj := range map[string]bool{"remapOK": true, "remapBad": false} {
+			f := fs[name]
+			var sw *ast.SwitchStmt
+			ast.Inspect(f.Body, func(n ast.Node) bool {
+				if s, ok := n.(*ast.SwitchStmt); ok {
+					sw = s
+				}
+				return true
+			})
+			v := f.Info().Defs[f.Type.Params.List[0].Names[0]]
+			ps, why := PiecewiseFromSwitch(f.Info(), sw, v, NewIvSet(Iv{0, 255}))
+			if why != "" {
+				return why
+			}
+			inj := true
+			var img IvSet
+			for _, p := range ps {
+				if !img.Intersect(p.Image()).Empty() {
+					inj = false
+				}
+				img = img.Union(p.Image())
+			}
+			if inj != wantInj {
+				return "injectivity verdict wrong for " + name
+			}
+		}
+		return ""
+	}},
+}
